@@ -10,6 +10,8 @@ Record runspec := mkRun {
   r_other : bool;          (* a re-entrant call made by the function goes through ANOTHER Spinner on the same reactor *)
   r_clear : bool;          (* clear_junk() is called first *)
   r_pre : list nat;        (* handlers installed for SIGINT, SIGTERM, SIGCHLD before the call *)
+  r_stop : option nat;     (* Some k: before the call somebody makes reactor.stop the instance-level override k
+                              (k = 0: removes any override, the stock method shows again); None: left as it is *)
   r_timeout : time;
   r_fn : fn
 }.
@@ -19,6 +21,8 @@ Record input := mkInput {
   i_runs : list runspec
 }.
 
+(* three pre-installed handlers: SIG_DFL 0, SIG_IGN 1, default_int_handler 2, Python callables, or h_none, the
+   disposition getsignal() reports as None *)
 Definition wf_run (rs : runspec) : Prop := length (r_pre rs) = length reactor_signals.
 Definition wf (i : input) : Prop := Forall wf_run (i_runs i).
 
@@ -32,7 +36,8 @@ Record robs := mkObs {
   o_running : bool;        (* reactor.running *)
   o_pending : nat;         (* len(reactor.getDelayedCalls()) *)
   o_readers : nat;         (* selectables still registered *)
-  o_stop_ok : bool;        (* reactor.stop is the original again and was never really called *)
+  o_stop : nat;            (* who reactor.stop is afterwards: 0 the stock method, k the override k, 99 anything else *)
+  o_stopped : bool;        (* the stock stop was really called (the reactor can never be started again) *)
   o_sigs : list nat        (* handlers of SIGINT, SIGTERM, SIGCHLD afterwards *)
 }.
 Definition obs := list robs.
@@ -107,14 +112,35 @@ Definition not_timeout_tok (t : nat) : bool := negb (Nat.eqb t tok_timeout).
 Definition own_junk_okb (o : robs) : bool :=
   if has tok_timeout (o_junk o) then result_eqb (o_res o) (Raised ENoResult) else true.
 
-(* whenever run() returns or raises (other than ReentryError): reactor stopped and empty, stop and handlers restored *)
-Definition clean_okb (rs : runspec) (o : robs) : bool :=
+(* the handlers afterwards are the ones installed before the call; a disposition that getsignal() reports as None
+   cannot be put back through the signal module by anybody once the reactor has taken the signal over: for that
+   signal nothing is demanded (everything else is) *)
+Fixpoint sigs_okb (pre after : list nat) : bool :=
+  match pre, after with
+  | [], [] => true
+  | p :: pre', a :: after' => (Nat.eqb p h_none || Nat.eqb a p) && sigs_okb pre' after'
+  | _, _ => false
+  end.
+Fixpoint Sigs_ok (pre after : list nat) : Prop :=
+  match pre, after with
+  | [], [] => True
+  | p :: pre', a :: after' => (p = h_none \/ a = p) /\ Sigs_ok pre' after'
+  | _, _ => False
+  end.
+
+(* who reactor.stop is when run() is called, given who it was after the previous run *)
+Definition stop_before (prev_stop : nat) (rs : runspec) : nat :=
+  match r_stop rs with Some k => k | None => prev_stop end.
+
+(* whenever run() returns or raises (other than ReentryError): reactor stopped and empty; reactor.stop is who it
+   was before the call (stock or override) and the stock stop was never really called; handlers restored *)
+Definition clean_okb (stop0 : nat) (rs : runspec) (o : robs) : bool :=
   negb (o_running o) && Nat.eqb (o_pending o) 0 && Nat.eqb (o_readers o) 0
-  && o_stop_ok o && list_eqb Nat.eqb (o_sigs o) (r_pre rs).
+  && Nat.eqb (o_stop o) stop0 && negb (o_stopped o) && sigs_okb (r_pre rs) (o_sigs o).
 
 (* stale = the junk the spinner holds when run() is called *)
-Definition run_okb (stale : list nat) (rs : runspec) (o : robs) : bool :=
-  clean_okb rs o &&
+Definition run_okb (stale : list nat) (stop0 : nat) (rs : runspec) (o : robs) : bool :=
+  clean_okb stop0 rs o &&
   match stale with
   | _ :: _ =>   (* refuses to run: nothing happens *)
       result_eqb (o_res o) (Raised EStaleJunk) && list_eqb Nat.eqb (o_junk o) stale
@@ -129,15 +155,17 @@ Definition run_okb (stale : list nat) (rs : runspec) (o : robs) : bool :=
       && own_junk_okb o
   end.
 
-Fixpoint runs_okb (prev_junk : list nat) (rss : list runspec) (os : obs) : bool :=
+Fixpoint runs_okb (prev_junk : list nat) (prev_stop : nat) (rss : list runspec) (os : obs) : bool :=
   match rss, os with
   | [], [] => true
   | rs :: rss', o :: os' =>
-      run_okb (if r_clear rs then [] else prev_junk) rs o && runs_okb (o_junk o) rss' os'
+      run_okb (if r_clear rs then [] else prev_junk) (stop_before prev_stop rs) rs o
+      && runs_okb (o_junk o) (stop_before prev_stop rs) rss' os'
   | _, _ => false
   end.
 
-Definition spec_okb (i : input) (o : obs) : bool := runs_okb [] (i_runs i) o.
+(* a history starts with the stock reactor.stop *)
+Definition spec_okb (i : input) (o : obs) : bool := runs_okb [] 0 (i_runs i) o.
 
 (* ---- readable form ---- *)
 Definition Allowed (T : time) (f : fn) (order : list nat) (r : res value exc) : Prop :=
@@ -151,11 +179,12 @@ Definition Allowed (T : time) (f : fn) (order : list nat) (r : res value exc) : 
               /\ r = decided f E
   end.
 
-Definition Clean (rs : runspec) (o : robs) : Prop :=
-  o_running o = false /\ o_pending o = 0 /\ o_readers o = 0 /\ o_stop_ok o = true /\ o_sigs o = r_pre rs.
+Definition Clean (stop0 : nat) (rs : runspec) (o : robs) : Prop :=
+  o_running o = false /\ o_pending o = 0 /\ o_readers o = 0 /\ o_stop o = stop0 /\ o_stopped o = false
+  /\ Sigs_ok (r_pre rs) (o_sigs o).
 
-Definition Run_spec (stale : list nat) (rs : runspec) (o : robs) : Prop :=
-  Clean rs o /\
+Definition Run_spec (stale : list nat) (stop0 : nat) (rs : runspec) (o : robs) : Prop :=
+  Clean stop0 rs o /\
   match stale with
   | _ :: _ => o_res o = Raised EStaleJunk /\ o_junk o = stale /\ o_ran o = [] /\ o_order o = [] /\ o_reentry o = None
   | [] => Allowed (r_timeout rs) (r_fn rs) (o_order o) (o_res o)
@@ -165,15 +194,17 @@ Definition Run_spec (stale : list nat) (rs : runspec) (o : robs) : Prop :=
           /\ (In tok_timeout (o_junk o) -> o_res o = Raised ENoResult)
   end.
 
-Fixpoint Runs_spec (prev_junk : list nat) (rss : list runspec) (os : obs) : Prop :=
+Fixpoint Runs_spec (prev_junk : list nat) (prev_stop : nat) (rss : list runspec) (os : obs) : Prop :=
   match rss, os with
   | [], [] => True
   | rs :: rss', o :: os' =>
-      Run_spec (if r_clear rs then [] else prev_junk) rs o /\ Runs_spec (o_junk o) rss' os'
+      Run_spec (if r_clear rs then [] else prev_junk) (stop_before prev_stop rs) rs o
+      /\ Runs_spec (o_junk o) (stop_before prev_stop rs) rss' os'
   | _, _ => False
   end.
 
-Definition Spec (i : input) (o : obs) : Prop := Runs_spec [] (i_runs i) o.
+Definition Spec (i : input) (o : obs) : Prop := Runs_spec [] 0 (i_runs i) o.
 
-(* no finding is delimited for C15 after the F10 repair (982287f) *)
+(* no finding is delimited for C15: F10 (982287f) and F24 (030b4f9: TypeError out of run() when getsignal()
+   reported None for a preserved signal) are repaired *)
 Definition findings (i : input) : list nat := [].
